@@ -25,6 +25,9 @@ DRIVER3 = dict(nd=3, groups=[{'v_parallel_2d': [0, 2, 1], 'mode_solve': [1, 2, 0
                procs=lambda p0, p1: [[p0, p1], p0, p1], start='mode_solve')
 DRIVER4 = dict(nd=4, groups=[{'v_parallel_2d': [0, 2, 1, 3], 'mode_solve': [1, 2, 0, 3]}, {'v_parallel_1d': [0, 2, 1, 3]}, {'poloidal': [2, 1, 0, 3]}],
                procs=lambda p0, p1: [[p0, p1], p0, p1], start='mode_solve')
+UPSTREAM4 = dict(nd=4, groups=[{'flux_surface2': [0, 3, 1, 2], 'v_parallel': [0, 2, 1, 3], 'poloidal': [3, 2, 1, 0]},
+                                {'flux_surface1': [0, 3, 1, 2], 'z_surface': [2, 3, 1, 0], 'vr_contig1': [2, 1, 3, 0]}],
+                 procs=lambda p0, p1: [[p0, p1], p0], start='flux_surface2')
 TWO_GROUPS = dict(nd=3, groups=[{'A': [0, 1, 2], 'B': [0, 2, 1]}, {'C': [0, 2, 1]}],
                   procs=lambda p0, p1: [[p0, p1], p0], start='A')
 
@@ -34,7 +37,7 @@ def tag(cfg):
 
 
 def family(cfg):
-    return dict(driver3=DRIVER3, driver4=DRIVER4, two=TWO_GROUPS)[cfg['family']]
+    return dict(driver3=DRIVER3, driver4=DRIVER4, two=TWO_GROUPS, upstream4=UPSTREAM4)[cfg['family']]
 
 
 def enum_paths(cfg):
@@ -212,6 +215,12 @@ def configs(tier):
             for a, b in itertools.permutations(names3, 2):
                 add('driver3', grid, a, b, (a, b) in [('mode_solve', 'v_parallel_1d'), ('v_parallel_1d', 'poloidal'), ('poloidal', 'mode_solve')], 3)
         add('driver3', (2, 1), 'v_parallel_2d', 'poloidal', False, 3)
+        # same number of distributed directions on a grid with an extent of 1, buffer given, orders differing by a 3-cycle
+        add('driver3', (1, 2), 'poloidal', 'v_parallel_2d', True, 3)
+        add('driver3', (1, 2), 'v_parallel_1d', 'poloidal', True, 3)
+        # the grouping of upstream's own LayoutSwapper test (4-D, 1-D group on the first direction)
+        for a, b, buf in (('z_surface', 'v_parallel', False), ('v_parallel', 'z_surface', True), ('flux_surface1', 'flux_surface2', False), ('poloidal', 'vr_contig1', False)):
+            add('upstream4', (2, 2), a, b, buf, 2)
         add('driver3', (2, 1), 'poloidal', 'v_parallel_1d', True, 3)
     else:
         for grid in [(1, 2), (2, 1), (2, 2), (1, 3), (3, 1), (2, 3), (3, 2), (3, 3)]:
@@ -221,6 +230,10 @@ def configs(tier):
         for grid in [(1, 2), (2, 1), (2, 2)]:
             for a, b in itertools.permutations(names3, 2):
                 add('driver4', grid, a, b, (hash((a, b)) % 2 == 0), 3)
+        up = ['flux_surface2', 'v_parallel', 'poloidal', 'flux_surface1', 'z_surface', 'vr_contig1']
+        for grid in [(2, 2), (2, 1), (1, 2)]:
+            for a, b in itertools.permutations(up, 2):
+                add('upstream4', grid, a, b, (hash((a, b)) % 3 == 0), 2 if grid == (2, 2) else 3)
         for grid in [(2, 2), (2, 3)]:
             for a, b in itertools.permutations(['A', 'B', 'C'], 2):
                 for buf in (False, True):
@@ -233,7 +246,7 @@ def main():
     real, lay = LS.modules()
     if run.args.replay:
         rp = json.load(open(run.args.replay))['replay']
-        fam = dict(driver3=DRIVER3, driver4=DRIVER4, two=TWO_GROUPS)[rp['family']]
+        fam = dict(driver3=DRIVER3, driver4=DRIVER4, two=TWO_GROUPS, upstream4=UPSTREAM4)[rp['family']]
         print(LS.concrete_swapper_transpose(rp['shape'], rp['nprocs'], fam['groups'], fam['procs'](*rp['nprocs']), fam['start'], rp['src'], rp['dst'], rp['buf']))
         sys.exit(0)
     SW = real.LayoutSwapper
